@@ -27,7 +27,14 @@ def run_rules(prop, root, tier, seed):
     repo = Repo(root)
     classes = ClassTable(repo)
     ctx = Context(prop, repo, classes, tier=tier, seed=seed)
-    mod.run(ctx)
+    try:
+        mod.run(ctx)
+    except AnalysisError as e:
+        # an anchor could not be followed any further: if real violations were
+        # already found on the way, report those (exit 1); otherwise exit 2.
+        if not ctx.violations:
+            raise
+        ctx.note(f"analysis stopped early after reporting violations: {e}")
     ctx.check_floors()
     return ctx, mod
 
